@@ -217,7 +217,7 @@ def refute_by_evaluation(goals, env, approx=False, all_syms_seed=0, conds=()):
             for t in cone:
                 if t.op == 'sym':
                     lines.append(f'(= {t.args[0]} {smt.num(env[t.args[0]], t.sort)})')
-                elif t.op == 'uf' and t.args[0] != 'sqrt':
+                elif t.op == 'uf' and t.args[0] != 'sqrt' and not (approx and t.args[0] == 'exp'):
                     lines.append(f'(= t{t.id} {smt.num(ufv[t.id], "R")})')
             out[i] = (lines, {t.args[0]: str(env[t.args[0]]) for t in cone if t.op == 'sym'})
     return out
